@@ -11,8 +11,8 @@ SPEC = {
              "valid responses are real HMAC-SHA256 values computed by the harness from the challenge it read back. quick: every "
              "history of length <= 3 over a 28-event alphabet (2 connections x {first-connect, phase-1 A/B, phase-2 A/B valid-latest, "
              "stale, foreign key, foreign connection's challenge, junk, tunnel-type phase 1/2, malformed} + ban/unban/blacklist/expire) "
-             "plus 12000 seeded random histories of length <= 14 over 2-3 connections sharing or not sharing addresses, 1-3 clients, "
-             "unknown ids, id 0, deleted / key-less clients, limiter bursts 1-3, refills, unknown connections; thorough: length <= 4 "
+             "plus every history of length <= 3 over a 12-event alphabet on one connection for a usable client A and a client V whose stored secret is unusable (sealed under another master key / empty ciphertext / legacy plaintext field only; phase 1 A/V, phase 2 naming V with the empty key, V's ciphertext bytes as key, V's legacy plaintext, A's key, V's original secret, phase 2 naming A valid / empty key, tunnel type, re-sealing events), plus 12000 seeded random histories of length <= 14 over 2-3 connections sharing or not sharing addresses, 1-3 clients, "
+             "unknown ids, id 0, deleted clients, clients with unusable stored secrets, degenerate key terms, limiter bursts 1-3, refills, unknown connections; thorough: length <= 4 "
              "exhaustive plus 60000 random. After every event the harness reads the response written, IsAuthenticated/GetClientID/"
              "pending challenge of every connection, GetControlConnectionByClientID of every client, IsBanned/IsAllowed of every address; "
              "the model must produce the identical observation and the theorem's predicate `holds` must accept the implementation's. "
@@ -24,7 +24,7 @@ SPEC = {
         "session handleHandshake, UpdateAuth, removeConnectionLocked, RecordFailure and the source text of their if-conditions (compared by decide)",
         "differential harness /verif/harness/c03 (fresh real stack per history; shim security.VerifRefillIP drops a limiter bucket)",
         "crypto is symbolic in the model: secrets pairwise distinct, server nonces never repeat (the harness numbers challenge strings by "
-        "first occurrence, so a repeated challenge would show), HMAC-SHA256 collision free; AES-GCM storage of the secret = a flag hasKey",
+        "first occurrence, so a repeated challenge would show), HMAC-SHA256 collision free; AES-GCM storage of the secret = a state usable | undecryptable | empty | legacy; Decrypt succeeds only for usable",
     ],
     "assumptions": [
         "IPManager whitelist not modelled (never populated by the harness); CIDR blacklist entries not exercised",
